@@ -62,8 +62,11 @@ def main(argv=None):
 
 def replay(mod, prop, path):
     doc = json.load(open(path))
+    default_mod = mod
     for item in doc.get('cases', []):
         case = item['case']
+        # a case evaluated by another property's scenario module (a family shared between checks) names that module
+        mod = importlib.import_module(item['module']) if item.get('module') else default_mod
         r = mod.impl_eval(case)
         line = mod.model_line(case)
         m = None
@@ -139,7 +142,7 @@ def check(mod, prop, tier, seed, no_build=False):
                                       ([f'correspondence: {len(run.mismatches)} behavioural differences between '
                                         f'model and implementation'] if run.mismatches else [])),
             'tie_failures': tie.failures,
-            'cases': [{'case': m['case'], 'implementation': m['implementation'], 'model': m['model']}
+            'cases': [{'case': m['case'], 'implementation': m['implementation'], 'model': m['model'], 'module': m.get('module')}
                       for m in sorted(run.mismatches, key=lambda m: len(json.dumps(m['case'], default=str)))[:5]],
             'searched': searched})
         print(f'VIOLATION property={prop} replay={replay_path} no-failing-input-found')
